@@ -289,7 +289,7 @@ func ParseRDNSequence(s string) (pkix.RDNSequence, error) {
 	//are supposed to be read
 	for i, assertion := range assertions {
 		assertion = strings.TrimSpace(assertion)
-		parts := strings.Split(assertion, "=")
+		parts := strings.SplitN(assertion, "=", 2)
 		if len(parts) != 2 {
 			return nil, fmt.Errorf("config: malformed DN key-value pair: '%v'", assertion)
 		}
